@@ -27,12 +27,21 @@ func newModSet() *modSet {
 	return &modSet{vars: map[types.Object]bool{}, heaps: map[string]bool{}, fresh: map[string]bool{}}
 }
 
+// markFresh: the heap is written only at references allocated by the code being summarised.
+func (m *modSet) markFresh(key string) {
+	m.allocs = true
+	if !m.heaps[key] {
+		m.fresh[key] = true
+	}
+}
+
 func (m *modSet) addAll(o *modSet) {
 	if o == nil {
 		return
 	}
 	for k := range o.heaps {
 		m.heaps[k] = true
+		delete(m.fresh, k)
 	}
 	for k := range o.fresh {
 		if !m.heaps[k] {
@@ -192,10 +201,10 @@ func (w *World) collectMods(pkg *packages.Package, c *Ctx, n ast.Node, ms *modSe
 					if t := info.TypeOf(s.X); t != nil {
 						if st, named, _ := structOf(t); st != nil && !opaqueNamed(named) {
 							for i := 0; i < st.NumFields(); i++ {
-								ms.heaps[fieldKey(named, st.Field(i).Name())] = true
+								ms.markFresh(fieldKey(named, st.Field(i).Name()))
 							}
 						} else {
-							ms.heaps["P:"+typeKey(t)] = true
+							ms.markFresh("P:" + typeKey(t))
 						}
 					}
 				}
@@ -205,11 +214,11 @@ func (w *World) collectMods(pkg *packages.Package, c *Ctx, n ast.Node, ms *modSe
 				switch u := types.Unalias(t).Underlying().(type) {
 				case *types.Slice:
 					ms.allocs = true
-					ms.heaps["E:"+typeKey(u.Elem())] = true
+					ms.markFresh("E:" + typeKey(u.Elem()))
 				case *types.Map:
 					ms.allocs = true
-					ms.heaps["MD:"+typeKey(t)] = true
-					ms.heaps["MV:"+typeKey(t)] = true
+					ms.markFresh("MD:" + typeKey(t))
+					ms.markFresh("MV:" + typeKey(t))
 				}
 			}
 		case *ast.FuncLit:
@@ -277,7 +286,16 @@ func (w *World) markStore(pkg *packages.Package, c *Ctx, e ast.Expr, ms *modSet)
 			cur = f.Type()
 		}
 		if throughPtr {
+			// a store through a local that only ever holds an object allocated by this function touches fresh memory only
+			if id, ok := unparen(l.X).(*ast.Ident); ok && len(sel.Index()) == 1 && w.freshLocal(pkg, id) {
+				if !ms.heaps[heapKey] {
+					ms.fresh[heapKey] = true
+					ms.allocs = true
+				}
+				return
+			}
 			ms.heaps[heapKey] = true
+			delete(ms.fresh, heapKey)
 			return
 		}
 		w.markStore(pkg, c, l.X, ms)
@@ -371,19 +389,21 @@ func (w *World) callMods(pkg *packages.Package, c *Ctx, call *ast.CallExpr, ms *
 				if t := info.TypeOf(call); t != nil {
 					switch u := types.Unalias(t).Underlying().(type) {
 					case *types.Slice:
-						ms.heaps["E:"+typeKey(u.Elem())] = true
+						ms.markFresh("E:" + typeKey(u.Elem()))
 					case *types.Map:
-						ms.heaps["MD:"+typeKey(t)] = true
-						ms.heaps["MV:"+typeKey(t)] = true
+						ms.markFresh("MD:" + typeKey(t))
+						ms.markFresh("MV:" + typeKey(t))
+						ms.markFresh("MC:" + typeKey(t))
 					case *types.Chan:
-						ms.heaps["CC"] = true
+						ms.markFresh("CC")
+						ms.markFresh("CP")
 					case *types.Pointer:
 						if s, named, _ := structOf(u.Elem()); s != nil && !opaqueNamed(named) {
 							for i := 0; i < s.NumFields(); i++ {
-								ms.heaps[fieldKey(named, s.Field(i).Name())] = true
+								ms.markFresh(fieldKey(named, s.Field(i).Name()))
 							}
 						} else {
-							ms.heaps["P:"+typeKey(u.Elem())] = true
+							ms.markFresh("P:" + typeKey(u.Elem()))
 						}
 					}
 				}
@@ -508,4 +528,91 @@ func (w *World) callMods(pkg *packages.Package, c *Ctx, call *ast.CallExpr, ms *
 		}
 	}
 	note(key)
+}
+
+// freshLocal: the identifier is a local pointer variable assigned exactly once, from an allocation:
+// &T{...}, new(T), or a call of a function whose contract ensures fresh(result).
+func (w *World) freshLocal(pkg *packages.Package, id *ast.Ident) bool {
+	info := pkg.TypesInfo
+	obj, ok := info.ObjectOf(id).(*types.Var)
+	if !ok || isGlobal(obj) || obj.IsField() {
+		return false
+	}
+	if w.freshLocals == nil {
+		w.freshLocals = map[types.Object]int{}
+	}
+	if v, ok := w.freshLocals[obj]; ok {
+		return v == 1
+	}
+	// find the enclosing file and scan assignments to obj
+	var file *ast.File
+	for _, f := range pkg.Syntax {
+		if f.Pos() <= obj.Pos() && obj.Pos() <= f.End() {
+			file = f
+		}
+	}
+	res := 0
+	if file != nil {
+		n, fresh := 0, 0
+		isAlloc := func(e ast.Expr) bool {
+			switch x := unparen(e).(type) {
+			case *ast.UnaryExpr:
+				_, ok := unparen(x.X).(*ast.CompositeLit)
+				return x.Op == token.AND && ok
+			case *ast.CallExpr:
+				if b, ok := unparen(x.Fun).(*ast.Ident); ok && b.Name == "new" {
+					return true
+				}
+				if fn := calleeOf(info, x); fn != nil {
+					if sp, ok := w.Specs[funcKeyOf(fn)]; ok {
+						for _, en := range sp.Ensures {
+							if strings.Contains(en.Text, "fresh(result)") {
+								return true
+							}
+						}
+					}
+				}
+			}
+			return false
+		}
+		ast.Inspect(file, func(x ast.Node) bool {
+			switch s := x.(type) {
+			case *ast.AssignStmt:
+				for i, l := range s.Lhs {
+					if lid, ok := l.(*ast.Ident); ok && info.ObjectOf(lid) == obj {
+						n++
+						if len(s.Rhs) == len(s.Lhs) && isAlloc(s.Rhs[i]) {
+							fresh++
+						}
+					}
+				}
+			case *ast.ValueSpec:
+				for i, nm := range s.Names {
+					if info.ObjectOf(nm) == obj {
+						if i < len(s.Values) {
+							n++
+							if isAlloc(s.Values[i]) {
+								fresh++
+							}
+						}
+					}
+				}
+			case *ast.UnaryExpr:
+				if s.Op == token.AND {
+					if uid, ok := unparen(s.X).(*ast.Ident); ok && info.ObjectOf(uid) == obj {
+						n += 2
+					}
+				}
+			}
+			return true
+		})
+		if n == 1 && fresh == 1 {
+			res = 1
+		}
+	}
+	if res == 0 {
+		res = 2
+	}
+	w.freshLocals[obj] = res
+	return res == 1
 }
